@@ -1553,3 +1553,140 @@ func canReachFeasible(start, pred *ssa.BasicBlock, to ssa.Instruction, avoid map
 	}
 	return walk(start, enter(pred, start, env{}))
 }
+
+// reachAssuming: an instruction satisfying target can be executed after `from`
+// (from the function entry of fn when from is nil) without executing an
+// instruction of avoid, along a path consistent with the assumed truth values
+// (1 true/nil, 2 false/non-nil) of the given values and with the constants and
+// assumed values the path assigns to merged flags on its way.
+func reachAssuming(fn *ssa.Function, from ssa.Instruction, target func(ssa.Instruction) bool, avoid map[ssa.Instruction]bool, assume map[ssa.Value]int) bool {
+	type env map[ssa.Value]int
+	sig := func(b *ssa.BasicBlock, e env) string {
+		var ks []string
+		for p, v := range e {
+			ks = append(ks, fmt.Sprintf("%p=%d", p, v))
+		}
+		sort.Strings(ks)
+		return fmt.Sprintf("%p|%s", b, strings.Join(ks, ","))
+	}
+	seen := map[string]bool{}
+	enter := func(from, b *ssa.BasicBlock, e env) env {
+		ne := env{}
+		for k, v := range e {
+			ne[k] = v
+		}
+		idx := -1
+		for i, p := range b.Preds {
+			if p == from {
+				idx = i
+			}
+		}
+		upd := map[ssa.Value]int{}
+		for _, in := range b.Instrs {
+			phi, ok := in.(*ssa.Phi)
+			if !ok {
+				break
+			}
+			upd[phi] = 0
+			if idx < 0 || idx >= len(phi.Edges) {
+				continue
+			}
+			switch x := phi.Edges[idx].(type) {
+			case *ssa.Const:
+				if x.Value != nil && x.Value.Kind() == constant.Bool {
+					if constant.BoolVal(x.Value) {
+						upd[phi] = 1
+					} else {
+						upd[phi] = 2
+					}
+				} else if x.IsNil() {
+					upd[phi] = 1
+				}
+			case *ssa.MakeInterface:
+				upd[phi] = 2
+			default:
+				v, pol := stripNot(phi.Edges[idx], true)
+				if k, ok := e[v]; ok && k != 0 {
+					if !pol {
+						k = 3 - k
+					}
+					upd[phi] = k
+				}
+			}
+		}
+		for k, v := range upd {
+			if v == 0 {
+				delete(ne, k)
+			} else {
+				ne[k] = v
+			}
+		}
+		return ne
+	}
+	var walk func(b *ssa.BasicBlock, e env, after ssa.Instruction) bool
+	walk = func(b *ssa.BasicBlock, e env, after ssa.Instruction) bool {
+		if after == nil {
+			k := sig(b, e)
+			if seen[k] || len(seen) > 6000 {
+				return false
+			}
+			seen[k] = true
+		}
+		skipping := after != nil
+		for _, in := range b.Instrs {
+			if skipping {
+				if in == after {
+					skipping = false
+				}
+				continue
+			}
+			if avoid[in] {
+				return false
+			}
+			if target(in) {
+				return true
+			}
+		}
+		succs := b.Succs
+		if i := blockIf(b); i != nil && len(b.Succs) == 2 {
+			cond, pol := stripNot(i.Cond, true)
+			known := e[cond]
+			if known == 0 {
+				known = e[unspill(cond)]
+			}
+			if known == 0 {
+				if x, isNil, ok := FactNilCmp(Fact{cond, true}); ok && e[x] != 0 {
+					if (e[x] == 1) == isNil {
+						known = 1
+					} else {
+						known = 2
+					}
+				}
+			}
+			if known != 0 {
+				if (known == 1) == pol {
+					succs = b.Succs[:1]
+				} else {
+					succs = b.Succs[1:2]
+				}
+			}
+		}
+		for _, s := range succs {
+			if walk(s, enter(b, s, e), nil) {
+				return true
+			}
+		}
+		return false
+	}
+	e := env{}
+	for k, v := range assume {
+		e[k] = v
+	}
+	if from == nil {
+		if len(fn.Blocks) == 0 {
+			return false
+		}
+		return walk(fn.Blocks[0], e, nil)
+	}
+	return walk(from.Block(), e, from)
+}
